@@ -142,6 +142,17 @@ def check_meshops(st, fs, known):
                         v.append(('gradient_3D of a linear field is not the constant gradient at every node', case, list(g), gr.to_numpy()[:3].tolist()))
                 except Exception as ex:
                     v.append(('gradient_3D raised %r' % ex, case, None, None))
+                # kept accessor objects asked again for another field of the same frame: as a fresh accessor (no field/geometry state carried)
+                if scale == 1.0 and field is fields[1]:
+                    try:
+                        acc3, accl = df.gradient_3D, df.gradient
+                        acc3.gradient_of('f'); accl.gradient_of('f')
+                        df['h'] = 7.0 * df.x - 2.0 * df.z + 1.0
+                        g3, gl2 = acc3.gradient_of('h'), accl.gradient_of('h')
+                        if not (close(g3.to_numpy(), np.tile([7.0, 0.0, -2.0], (len(g3), 1))) and close(gl2.to_numpy(), np.tile([7.0, 0.0, -2.0], (len(gl2), 1)), 1e-8)):
+                            v.append(('a kept gradient accessor asked for a second field answers with something else than that field\'s gradient', case, [7.0, 0.0, -2.0], [g3.to_numpy()[:2].tolist(), gl2.to_numpy()[:2].tolist()]))
+                    except Exception as ex:
+                        v.append(('kept gradient accessor raised %r on its second field' % ex, case, None, None))
                 # least-squares gradient needs neighbours spanning 3D: every block of this catalogue does
                 try:
                     gl = df.gradient.gradient_of('f')
